@@ -82,6 +82,10 @@ def tf_jobs(ck, beh):
       shapes, target = [(3, 3), (5,)], 1
     else:
       shapes, target = [[(4, 4)], [(3, 3), (5,)], [(4, 6)]][i % 3], 0
+    if i % 2:
+      # the optimizer object first serves a tree of the same structure whose leaves fall on the other side of
+      # the skip rule (matrix <-> vector)
+      o["warm_shapes"] = [((5,) if len(s_) > 1 else (3, 3)) for s_ in shapes]
     jobs.append({"o": o, "shapes": shapes, "steps": b["steps"], "target": target, "seed": ck.seed * 10000 + i,
                  "sparse": i % 4 == 0, "late": (c["so"] == "shampoo" and c["PF"] >= 2 and not c["skipped"]),
                  "sig": f"{c['so']}|{g}|{'skipped' if c['skipped'] else 'preconditioned'}"})
